@@ -98,6 +98,8 @@ type FnV struct {
 	loopHid  types.Object
 	loopBind func(*State)
 	applyHook func(*State)
+	wb        []wbEntry
+	callDepth int
 	curPos   token.Pos
 	decl     *ast.FuncDecl
 	fnobj    *types.Func
@@ -525,6 +527,7 @@ func (e *Engine) verifyFunc(fc *FuncContract) []*Oblig {
 		}
 		v.canary(ex.st, ex.node, ord)
 		v.checkPosts(ex, sc, ord)
+		v.checkFrame(ex, sc, ord)
 	}
 	tagTypes := map[int]types.Type{}
 	for _, tt := range e.ctx.tagTypes {
@@ -601,13 +604,66 @@ func (v *FnV) checkPosts(ex Exit, sc *Scope, ord int) {
 	}
 }
 
+// modifiedParams parses "modifies *a *b" lines.
+func modifiedParams(lines []string) []string {
+	var out []string
+	for _, l := range lines {
+		for _, f := range strings.Fields(l) {
+			out = append(out, strings.TrimPrefix(f, "*"))
+		}
+	}
+	return out
+}
+
+// checkFrame generates, for a function whose contract has a modifies clause, one
+// obligation per heap the body touched: every cell that existed at entry and is
+// not listed keeps its value.
+func (v *FnV) checkFrame(ex Exit, sc *Scope, ord int) {
+	mods := v.fc.Extra["modifies"]
+	if len(mods) == 0 {
+		return
+	}
+	var names []string
+	for name := range ex.st.hsort {
+		names = append(names, name)
+	}
+	sort.Strings(names)
+	for _, name := range names {
+		st := ex.st.fork()
+		en := v.entry.fork()
+		exitT := st.heap(name, st.hsort[name])
+		entryT := en.heap(name, st.hsort[name])
+		if exitT == entryT {
+			continue
+		}
+		r := v.c.freshName("frame_r")
+		st.declare(r, "Int")
+		conds := []string{sLe("0", r), sLe(r, v.entry.alloc)}
+		for _, p := range modifiedParams(mods) {
+			pv, ok := sc.vars[p]
+			if !ok {
+				continue
+			}
+			if pt, ok := pv.T.Underlying().(*types.Pointer); ok && heapName(v.substT(pt.Elem())) == name {
+				conds = append(conds, sNot(sEq(r, pv.S)))
+			}
+		}
+		goal := sImp(sAnd(conds...), sEq(sSelect(exitT, r), sSelect(entryT, r)))
+		ob := &Oblig{Name: fmt.Sprintf("%s#frame:%s", v.name, name), Fn: v.name, Kind: "frame", Pos: v.pos(ex.node),
+			Desc: fmt.Sprintf("modifies %s: no other cell of heap %s changes (at return #%d)", strings.Join(mods, " "), name, ord),
+			Params: v.params, ParamTs: v.paramTs}
+		ob.SMT = v.script(st, goal)
+		v.obligs = append(v.obligs, ob)
+	}
+}
+
 // scanBoxed finds local variables whose address is taken.
 func (v *FnV) scanBoxed(body ast.Node, info *types.Info) {
 	ast.Inspect(body, func(n ast.Node) bool {
 		switch x := n.(type) {
 		case *ast.UnaryExpr:
 			if x.Op == token.AND {
-				if id := rootIdent(x.X); id != nil {
+				if id := rootIdent(x.X); id != nil && !throughPointer(x.X, info) {
 					if obj, ok := info.Uses[id].(*types.Var); ok && !obj.IsField() && obj.Parent() != obj.Pkg().Scope() {
 						if _, isIdx := x.X.(*ast.IndexExpr); !isIdx {
 							v.boxed[obj] = true
@@ -636,6 +692,27 @@ func (v *FnV) scanBoxed(body ast.Node, info *types.Info) {
 		}
 		return true
 	})
+}
+
+// throughPointer reports whether the selector chain e (x.f.g) dereferences a
+// pointer on the way: &p.f with p a pointer is the address of a field of *p, not
+// of the variable p.
+func throughPointer(e ast.Expr, info *types.Info) bool {
+	for {
+		switch x := e.(type) {
+		case *ast.ParenExpr:
+			e = x.X
+		case *ast.SelectorExpr:
+			if t := info.TypeOf(x.X); t != nil {
+				if _, ok := t.Underlying().(*types.Pointer); ok {
+					return true
+				}
+			}
+			e = x.X
+		default:
+			return false
+		}
+	}
 }
 
 func rootIdent(e ast.Expr) *ast.Ident {
